@@ -295,6 +295,15 @@ def make_world(env, rng, kind, lb_params=None, open_delay=None, get_servers_dela
   w.top = tprov.CreateSink(props)
   w.lb = w.top.next_sink
 
+  def lock_free():
+    # The balancer runs some of its work as event-loop callbacks (completion callbacks of channel
+    # opens) that take its heap lock; a greenlet suspended while it holds that lock would make
+    # them fail (gevent cannot block in the loop).  A yielding log handler is therefore only let
+    # yield where the logging greenlet does not hold the lock.
+    lk = w.lb._heap_lock
+    return getattr(lk, '_owner', None) is not gevent.getcurrent()
+  w.lock_free = lock_free
+
   class Terminator(ClientMessageSink):
     def AsyncProcessRequest(self, *a):
       raise NotImplementedError()
